@@ -637,9 +637,9 @@ impl Element {
                                             // hoisted for the creation-time value are stale there
                                             let p = expression.to_proc_gen_prepare(w, scopes)?;
                                             w.expr_stmt(|w| {
-                                                write!(w, "R.s(N,")?;
+                                                write!(w, "R.s(N,Y(")?;
                                                 p.value_expr(w)?;
-                                                write!(w, ")")?;
+                                                write!(w, "))")?;
                                                 Ok(())
                                             })
                                         })?;
@@ -655,7 +655,12 @@ impl Element {
                         match slot_kind {
                             SlotKind::None => write!(w, "undefined")?,
                             SlotKind::Static(s) => write!(w, "{}", gen_lit_str(s))?,
-                            SlotKind::Dynamic(p) => p.value_expr(w)?,
+                            SlotKind::Dynamic(p) => {
+                                // `undefined` means "unchanged" to the runtime
+                                write!(w, "Y(")?;
+                                p.value_expr(w)?;
+                                write!(w, ")")?;
+                            }
                         }
                         if let Some(var_slot_map) = var_slot_names {
                             if var_slot_map.len() > 0 {
